@@ -152,7 +152,8 @@ fn values(k: SKind) -> &'static [f64] {
 		TweenerSet => &[0.25, 1.0, 0.5, 0.75],
 		LfoAmplitude => &[0.25, 1.0, 0.5, 2.0],
 		LfoOffset => &[0.0, 1.0, -0.5, 3.0],
-		LfoFrequency => &[40.0, 160.0, 80.0, 20.0],
+		// (whole periods per 4096-frame window, and at least four internal buffers per period)
+		LfoFrequency => &[8.0, 32.0, 16.0, 24.0],
 	}
 }
 
@@ -472,10 +473,10 @@ fn build(c: &SCase, v: f64) -> Result<Scene, Failure> {
 				(h.id(), Box::new(move |x, t| h.set(x, t)))
 			} else {
 				let (amp, off, freq, wave) = match c.kind {
-					LfoAmplitude => (v, 0.25, 64.0, 0.0),
-					LfoOffset => (0.5, v, 64.0, 0.0),
+					LfoAmplitude => (v, 0.25, 16.0, 0.0),
+					LfoOffset => (0.5, v, 16.0, 0.0),
 					LfoFrequency => (0.5, 0.0, v, 0.0),
-					_ => (0.5, 0.0, 64.0, v),
+					_ => (0.5, 0.0, 16.0, v),
 				};
 				let mut h = mgr.add_modulator(LfoBuilder::new().amplitude(amp).offset(off).frequency(freq).waveform(waveform(wave))).map_err(|_| err("lfo"))?;
 				let id = h.id();
@@ -508,6 +509,9 @@ struct Measure {
 
 impl Measure {
 	fn differs(&self, o: &Measure, scale: f64) -> Option<String> {
+		self.differs2(o, scale, scale.min(1.5))
+	}
+	fn differs2(&self, o: &Measure, scale: f64, cross_scale: f64) -> Option<String> {
 		let tol = |y: f64| scale * 0.01 * y.abs().max(0.005);
 		for ch in 0..2 {
 			if (self.rms[ch] - o.rms[ch]).abs() > tol(o.rms[ch].max(self.rms[ch])) {
@@ -517,7 +521,7 @@ impl Measure {
 				return Some(format!("mean of channel {ch}: {} vs {}", self.mean[ch], o.mean[ch]));
 			}
 		}
-		if (self.crossings - o.crossings).abs() > scale * (2.0 + 0.01 * o.crossings) {
+		if (self.crossings - o.crossings).abs() > cross_scale * (2.0 + 0.01 * o.crossings) {
 			return Some(format!("sign changes: {} vs {}", self.crossings, o.crossings));
 		}
 		None
